@@ -14,7 +14,7 @@ import (
 func init() {
 	register(&Prop{
 		ID: "C17",
-		Decided: "(1) the group key encoder is uniquely decodable and NULL-distinct (keyenc); (2) in processRow the row is fed to the group's aggregates before the predicate is evaluated, delivery is reachable only on the true edge of shouldFire, and on every firing path the group is deleted (under its own key, while the lock is still held) before the lock is released for delivery — the group restarts empty and cannot fire twice; (3) each new group gets its own accumulators (prototype.New()), never the prototype; (4) shouldFire binds each placeholder to exactly the aggregate of its spec (the output alias when reused, its own trigger aggregate otherwise); (5) every aggregate name recognised inside TRIGGER WHEN is registered as an aggregator; (6) only the Start goroutine receives from triggerChan; groups/stopped are accessed under gw.mu.",
+		Decided: "(1) the group key encoder is uniquely decodable and NULL-distinct (keyenc); (2) in processRow the row is fed to the group's aggregates before the predicate is evaluated, delivery is reachable only on the true edge of shouldFire, and on every firing path the group is deleted (under its own key, while the lock is still held) before the lock is released for delivery — the group restarts empty and cannot fire twice; (3) each new group gets its own accumulators (prototype.New()), never the prototype; (3b) every aggregate reference of the predicate gets a placeholder numbered by its position (per-spec running aggregates cannot be shared and fed twice); (4) shouldFire binds each placeholder to exactly the aggregate of its spec (the output alias when reused, its own trigger aggregate otherwise); (5) every aggregate name recognised inside TRIGGER WHEN is registered as an aggregator; (6) only the Start goroutine receives from triggerChan; groups/stopped are accessed under gw.mu.",
 		NotDecided: "the textual rewriting of the predicate and its binding to SELECT aggregates (regex based), aggregate values, NULL inputs' effect on values.",
 		Run: runC17,
 	})
@@ -143,6 +143,53 @@ func runC17(a *A) {
 		})
 		if n < 2 {
 			a.Und(fname(fn)+"#binds", fn.Pos(), "expected two bindings (reused output alias / own trigger aggregate), found %d", n)
+		}
+	})
+	a.Rule("shape/unique-placeholders", 1, func() {
+		// per-spec state (gs.triggerAggs[spec.placeholder]) is keyed by the placeholder: it must be unique per
+		// spec by construction, i.e. derived from the position of the aggregate reference
+		fn := a.Method("window", "GlobalWindow", "buildTrigger")
+		ph := a.FieldOf(a.Named("window", "triggerSpec"), "placeholder")
+		n := 0
+		for _, st := range storesToField(fn, ph) {
+			n++
+			ok := false
+			for _, leaf := range phiLeaves(st.Val) {
+				c, isCall := leaf.(*ssa.Call)
+				if !isCall || !isCallNamed(c, "fmt", "Sprintf") {
+					continue
+				}
+				// a %d argument that is a loop index or counter
+				if sl, isSl := c.Call.Args[1].(*ssa.Slice); isSl {
+					if al, isAl := sl.X.(*ssa.Alloc); isAl {
+						for _, r := range *al.Referrers() {
+							if ia, isIA := r.(*ssa.IndexAddr); isIA {
+								for _, rr := range *ia.Referrers() {
+									if s2, isSt := rr.(*ssa.Store); isSt {
+										v := s2.Val
+										if mi, isMI := v.(*ssa.MakeInterface); isMI {
+											v = mi.X
+										}
+										if isIntType(v.Type()) {
+											if bo, isB := v.(*ssa.BinOp); isB && bo.Op == token.ADD {
+												ok = true // rangeindex (phi + 1) or counter
+											}
+											if _, isPhi := v.(*ssa.Phi); isPhi {
+												ok = true
+											}
+										}
+									}
+								}
+							}
+						}
+					}
+				}
+			}
+			a.Check(ok, fname(fn)+"#placeholder-unique", st.Pos(), "each aggregate reference of TRIGGER WHEN gets a placeholder numbered by its position",
+				"the placeholder of a TRIGGER WHEN aggregate reference is "+TermOf(st.Val, nil).String()+", not numbered by position: two references can share one placeholder and thus one running aggregate, which is then fed once per reference (a row counted twice) — the group fires on rows where the predicate is false")
+		}
+		if n == 0 {
+			a.Und(fname(fn)+"#placeholder-unique", fn.Pos(), "no triggerSpec.placeholder assignment found")
 		}
 	})
 	a.Rule("tables/trigger-aggregates", 9, func() {
